@@ -23,7 +23,12 @@ func YAMLDoc(r *rand.Rand, headers []string, cl Classes) string {
 	var s string
 	switch {
 	case nd > 1:
-		s = strings.Join(docs, "\n---\n")
+		sep := "\n---\n"
+		if r.IntN(4) == 0 {
+			sep = "\n---\n---\n" // an empty document in between: two adjacent separator lines
+			cl["adjacent-doc-separators"] = true
+		}
+		s = strings.Join(docs, sep)
 		if r.IntN(3) == 0 {
 			s = "---\n" + s
 		}
@@ -95,6 +100,12 @@ func yamlOne(r *rand.Rand, headers []string, cl Classes) string {
 			lines = append(lines, fmt.Sprintf("%s: v%d", k, r.IntN(100)))
 		}
 	}
+	if r.IntN(12) == 0 {
+		// a scalar document with a whole line equal to the escape token (stored unchanged,
+		// and unescaped to `---` on the stored side when replayed)
+		cl["escape-token-whole-line"] = true
+		return pick(r, []string{"/-/-/-/", "first line\n/-/-/-/\nlast line", "/-/-/-/\nsecond"})
+	}
 	if r.IntN(10) == 0 {
 		// a top-level flow sequence document that looks like an entry header
 		h := "[TestQ - 1]"
@@ -147,7 +158,7 @@ func yamlScalar(r *rand.Rand) *JNode {
 	case 3:
 		return &JNode{Kind: "null"}
 	default:
-		return &JNode{Kind: "str", S: pick(r, []string{"hello", "mock-user", "a b c", "x: y", "with \"q\"", "2024-01-01", "- dash", "#hash", "[TestA - 1]", "---"})}
+		return &JNode{Kind: "str", S: pick(r, []string{"hello", "mock-user", "a b c", "x: y", "with \"q\"", "2024-01-01", "- dash", "#hash", "[TestA - 1]", "---", "<Type:float64>", "<Type:uint64>", "<Type:string>"})}
 	}
 }
 
